@@ -616,8 +616,29 @@ func corrLine(p *c10lab.DPlan, payload, mode string, labels []string, run *c10la
 		frames = append(frames, common.QS(c10lab.AbstractFrame(raw)))
 	}
 	// every release is followed by the render of that group (the coordinator waits for quiescence)
+	// under load two releases can overtake each other: when every frame parses, the order of the
+	// completed ids in the frames is the render order; otherwise (a torn frame) the release order
+	order := run.Released
+	var fromFrames []int
+	allParsed := true
+	for i, f := range s.Frames {
+		if f.ParseErr != "" {
+			allParsed = false
+		}
+		if i == 0 {
+			continue
+		}
+		for _, c := range f.Completed {
+			if n, err := strconv.Atoi(c.ID); err == nil {
+				fromFrames = append(fromFrames, n)
+			}
+		}
+	}
+	if allParsed && len(fromFrames) == len(run.Released) {
+		order = fromFrames
+	}
 	trace := []string{"trace"}
-	for _, id := range run.Released {
+	for _, id := range order {
 		trace = append(trace, common.L("f", common.I(id)), common.L("r", common.I(id)))
 	}
 	if mode == "slice" {
